@@ -1524,12 +1524,22 @@ def _explore_peer(ctx, res, replay_ops, which):
         res.evaluations += 1
         kind = "count" if any(x.startswith("N") for x in steps) else "faults"
         res.dist["scenario:" + kind] += 1
+        quiet = True       # no answer later than the client's timeout, no relay: every socket must be gone at a C step
         for x in steps:
             if x[0] == "D":
                 res.dist["answers-delivered-%s-times" % x[1:]] += 1
+                quiet = False
             if x[0] in "AR":
                 d = int(x[1:])
                 res.dist["%s-delay:%s" % (x[0], "prompt" if d < 5000 else "late" if d < 20000 else "lost")] += 1
+                if d >= 5000:
+                    quiet = False
+            if x[0] == "H":
+                d = int(x[2:])
+                res.dist["%s-connection-setup:%s" % (x[1], "<2s" if d < 2000 else "2-5s" if d < 5000 else ">5s")] += 1
+            if x[0] == "Q":
+                res.dist["stored-document:%s" % {"0": "quota-a-number", "1": "quota-missing", "2": "quota-not-numeric",
+                                                 "3": "unitCost-a-number", "4": "unitCost-missing", "9": "restored"}.get(x[1:], x[1:])] += 1
         if im.split(" ")[0] in ("crash", "panic", "timeout", "create-failed", "bad-op"):
             res.violation("oracle", "%s: scenario did not run (%s)" % (which, im[:100]), [op, "# impl: " + im[:300]])
             continue
@@ -1557,6 +1567,12 @@ def _explore_peer(ctx, res, replay_ops, which):
                     bad = "connections / background tasks left behind after completed requests: %s established, goroutine bucket %s" % (f[0], f[1])
                 elif len(f) > 4 and int(f[4]) > 0:
                     bad = "%s answer handler task(s) (HandleSUA/HandleCCA) left behind, blocked for ever, after the requests had returned" % f[4]
+                elif len(f) > 5 and int(f[5]) > 0:
+                    bad = ("%s request handler task(s) of the rating / account-balance server still running after every request had "
+                           "returned (not counting handlers the script keeps asleep)" % f[5])
+                elif len(f) > 6 and quiet and int(f[6]) > 0:
+                    bad = ("%s socket(s) on the Diameter ports still held by the process (any state but LISTEN) after every request "
+                           "had returned and every answer had been in time or would never come" % f[6])
                 elif len(f) > 3 and int(f[3]) > 0:
                     bad = ("%s go-diameter watchdog task(s) still running after every request had returned and every connection was closed "
                            "(one per request whose answer did not arrive within the timeout; %s goroutines above the baseline)" % (f[3], f[2]))
@@ -1580,7 +1596,12 @@ def _explore_peer(ctx, res, replay_ops, which):
                 "the 5 s timeout (6.5 s) or lost (40 s), followed at once / after 3 s / with a 2.5 s answer by further updates; random "
                 "patterns of prompt / 0.8 s / 2.5 s / late / lost answers, each answer delivered once, twice or three times (a relay in front "
                 "of the real servers repeats it); runs of timed-out requests followed by a count of go-diameter watchdog goroutines and of "
-                "answer handlers that have not returned. Every update must complete within 14 s and act only on the "
+                "answer handlers that have not returned; peers that accept the connection and take 0.3-6.5 s over the TLS handshake "
+                "(a TCP proxy in front of the servers holds the server's first octets back), for either client, alone, as the last "
+                "dial of an update, several in a row, and combined with answers that are in time by themselves but later than 5 s "
+                "after the dial began; stored account documents the servers cannot digest (quota / unitCost a number, missing, not "
+                "numeric), so that the server-side handler fails without answering: request handler tasks of the two servers and "
+                "sockets in any state are counted as well. Every update must complete within 14 s and act only on the "
                 "answer to its own account-balance request (identified by the amount: each request tops up by a distinct sum of powers "
                 "of two); observations are compared with the client machines of Model/DiamClient.lean (who answered, elapsed time within "
                 "%d ms, open connections)" % PEER_TOL_MS)
@@ -1605,7 +1626,8 @@ def explore_c19(ctx, res, replay_ops=None):
 
 
 _peer_trust = ["go-diameter (state machine, mux locking, connection teardown) is modelled from reading its source, not verified",
-               "the go/ast fact extractor harness/cmd/diamclient.go (defer conn.Close, channel made per request, select-default send)",
+               "the go/ast fact extractor harness/cmd/diamclient.go (defer conn.Close, channel made per request, select-default send, "
+               "synchronous dial: no go statement in the client function)",
                "real-time scenarios: delays keep 1.5 s clear of the 5 s timeout; the exact race is the model's business"]
 PROPS["C18"] = dict(lean=["ChfVerif.Props.C18"], explore=explore_c18, gen=[gen_table("diamclient", "DiamClient.lean")], trusted=_peer_trust)
 PROPS["C19"] = dict(lean=["ChfVerif.Props.C19"], explore=explore_c19, gen=[gen_table("diamclient", "DiamClient.lean")], trusted=_peer_trust)
